@@ -78,11 +78,14 @@ func opPeerLife() error {
 			}
 		}
 	}()
-	wait := time.Duration(envI("VERIF_WAIT_MS", 8000)) * time.Millisecond
+	// slow is not stuck: the first wait that expires has lasted a full minute (a goroutine of a busy machine gets its turn
+	// long before that); once that has happened the code is known to deviate and the later waits are short
+	wait := time.Duration(envI("VERIF_WAIT_MS", 60000)) * time.Millisecond
 	until := func(cond func() bool) bool {
 		deadline := time.Now().Add(wait)
 		for !cond() {
 			if time.Now().After(deadline) {
+				wait = 3 * time.Second
 				return false
 			}
 			time.Sleep(50 * time.Microsecond)
